@@ -188,7 +188,15 @@ func c12Run(in []string) (obs []string) {
 		toks := head[1:]
 		for i := 0; i+1 < len(toks); i += 2 {
 			id, _ := strconv.ParseUint(toks[i], 10, 32)
-			s, _ := new(big.Int).SetString(toks[i+1], 10)
+			var s *big.Int // "nil" stays a nil pointer
+			if toks[i+1] != "nil" {
+				s, _ = new(big.Int).SetString(toks[i+1], 10)
+				if s.Sign() < 0 {
+					vu.Stat("G_negative_stake")
+				}
+			} else {
+				vu.Stat("G_nil_stake")
+			}
 			b.Set(idx.ValidatorID(id), s)
 		}
 		tb := b.TotalWeight().BitLen()
@@ -366,6 +374,21 @@ func init() {
 					bp := c12RandBig(r)
 					c12Emit(emit, []string{"G"}, bp)
 					c12Emit(emit, []string{"G"}, c12Shuffle(r, bp))
+					switch r.Intn(6) {
+					case 0: // a nil stake (deletes, like zero): inside the domain
+						k := r.Intn(len(bp) / 2)
+						nb := append(append([]string{}, bp...), bp[2*k], "nil")
+						c12Emit(emit, []string{"G"}, nb)
+					case 1: // a negative stake: outside the domain, the model must still mirror the code
+						k := r.Intn(len(bp) / 2)
+						nb := append([]string{}, bp...)
+						if nb[2*k+1] != "0" {
+							nb[2*k+1] = "-" + nb[2*k+1]
+						} else {
+							nb[2*k+1] = "-1"
+						}
+						c12Emit(emit, []string{"G"}, nb)
+					}
 				}
 			}
 		},
